@@ -7,6 +7,9 @@ Robustness sweeps of the rules against behaviour-preserving changes of *shape* (
                (elif chains included - the inner if becomes the body of the outer one);
   insert_pass  a `pass` statement is inserted in front of every statement of every function;
   split_and    `if a and b: X` (no else) becomes `if a:` with a nested `if b: X`; merge_ifs is the inverse;
+  extract_stmt every simple statement of a method that mentions only self and module-level names is moved into a new method of its class
+               (NOT always behaviour-preserving for this analysis: a call is a landing point for an asynchronous terminate - findings of
+               the landing rules on such variants are true reports, everything else is a false alarm);
   move_method  every undecorated method (not used by the class body itself) is moved to the end of its class.
 
 Neither changes what the program does, so every finding on such a variant is a false alarm of a rule that matched the
@@ -33,6 +36,31 @@ def main():
         if args.file and rel != args.file:
             continue
         tree = ast.parse(open(os.path.join(args.repo, rel)).read())
+        if args.kind == 'extract_stmt':
+            import builtins
+            mod_names = {n.id for st in tree.body for n in ast.walk(st) if isinstance(n, ast.Name) and isinstance(n.ctx, ast.Store)} | \
+                        {(a.asname or a.name).split('.')[0] for st in tree.body if isinstance(st, (ast.Import, ast.ImportFrom)) for a in st.names} | \
+                        {st.name for st in tree.body if isinstance(st, (ast.FunctionDef, ast.ClassDef))} | set(dir(builtins))
+            for c in ast.walk(tree):
+                if not isinstance(c, ast.ClassDef):
+                    continue
+                for m in c.body:
+                    if not isinstance(m, (ast.FunctionDef, ast.AsyncFunctionDef)) or not m.args.args or m.args.args[0].arg != 'self':
+                        continue
+                    nested = [x for x in ast.walk(m) if isinstance(x, (ast.FunctionDef, ast.Lambda)) and x is not m]
+                    for st in ast.walk(m):
+                        if not isinstance(st, (ast.Expr, ast.Assign, ast.AugAssign)) or any(any(y is st for y in ast.walk(nf)) for nf in nested):
+                            continue
+                        if isinstance(st, ast.Expr) and isinstance(st.value, ast.Constant):
+                            continue
+                        names = {n.id for n in ast.walk(st) if isinstance(n, ast.Name)}
+                        if not names <= (mod_names | {'self'}) or 'super' in names or any(isinstance(n, (ast.Yield, ast.YieldFrom, ast.Await, ast.NamedExpr)) for n in ast.walk(st)):
+                            continue
+                        if any(isinstance(n, ast.Name) and isinstance(n.ctx, ast.Store) for n in ast.walk(st)):
+                            continue
+                        variants.VARIANTS.append({'kind': 'benign', 'prop': None, 'name': f'extract_stmt:{rel}:{c.name}.{m.name}:{st.lineno}',
+                                                  'edits': [(rel, ('extract_stmt', st.lineno, st.col_offset), None)], 'expect': None})
+            continue
         if args.kind == 'move_method':
             for c in ast.walk(tree):
                 if isinstance(c, ast.ClassDef):
